@@ -590,6 +590,9 @@ class DebianCopyright(object):
                 values.extend(k for k in para.to_dict().values())
                 # the new start and end lines are the minimal first line and the
                 # maximal last line of contiguous paragraphs
+                if not para.line_numbers_by_field:
+                    # nothing but empty fields: no lines to account for
+                    continue
                 first, last = para.get_first_last_line_numbers()
                 if start_line is None:
                     start_line, end_line = first, last
@@ -599,6 +602,9 @@ class DebianCopyright(object):
                     end_line = max([end_line, last])
                 except Exception as e:
                     raise Exception(repr(e), start_line, first, end_line, last) from e
+
+            if start_line is None:
+                start_line = end_line = 1
 
             paragraphs.append(
                 CatchAllParagraph(
